@@ -277,7 +277,8 @@ impl FromStr for ISRCString {
         filter_split(&isrc, 2, |c| c.is_ascii_alphabetic())
             .and_then(|s| filter_split(s, 3, |c| c.is_ascii_alphanumeric()))
             .and_then(|s| filter_split(s, 2, |c| c.is_ascii_digit()))
-            .and_then(|s| s.chars().all(|c| c.is_ascii_digit()).then_some(()))
+            .and_then(|s| filter_split(s, 5, |c| c.is_ascii_digit()))
+            .and_then(|s| s.is_empty().then_some(()))
             .map(|()| ISRCString(isrc.into_owned()))
             .ok_or(CuesheetError::InvalidISRC)
     }
